@@ -206,3 +206,26 @@ mod test {
         assert_eq!(bf.bitset.len(), 16);
     }
 }
+
+// ---------------------------------------------------------------------------------------------
+// verification hooks (feature `verif-hooks`)
+#[cfg(feature = "verif-hooks")]
+#[doc(hidden)]
+impl Bloom {
+    pub(crate) fn verif_from_raw(bitset: Vec<u64>, size_exp: u64, set_locs: u64, elem_num: u64) -> Self {
+        Bloom {
+            bitset,
+            elem_num,
+            size_exp,
+            size: (1u64 << size_exp) - 1,
+            set_locs,
+            shift: 64 - size_exp,
+        }
+    }
+    pub(crate) fn verif_bits(&self) -> &[u64] {
+        &self.bitset
+    }
+    pub(crate) fn verif_params(&self) -> (u64, u64) {
+        (self.size_exp, self.set_locs)
+    }
+}
